@@ -28,6 +28,10 @@ type c04Case struct {
 	Delivered [4][][2]int `json:"delivered"`
 	Overlap   bool        `json:"overlap"`
 	Note      string      `json:"note,omitempty"`
+	// Impatient: some senders used contexts that expire while they wait for their turn or while they write; Work
+	// then lists, per sender, only the envelopes whose send reported success
+	Impatient bool  `json:"impatient,omitempty"`
+	Attempts  []int `json:"attempts,omitempty"` // per sender: sends attempted
 }
 
 func (c *c04Case) Coq() string {
@@ -203,14 +207,144 @@ func runC04Pair(transport string, buffer int, delayUS int, workC2S, workS2C [][]
 	return []*c04Case{c2s, s2c}, nil
 }
 
+// runC04Impatient: a connection with small buffers and a slow reader, so that writers stall in the middle of an
+// envelope; two senders with long contexts and large envelopes, and several senders whose contexts expire after
+// 0.2-2 ms (while they wait for their turn, or while they write).  A send that fails may leave the TCP transport
+// unusable (a stated assumption of C12), so the case keeps, per sender, the envelopes whose send reported
+// success: exactly those must be delivered, in order, intact - and no two writes may ever overlap.
+func runC04Impatient(seed int64) (*c04Case, error) {
+	p, err := EstablishedPair("memb", 1)
+	if err != nil {
+		return nil, err
+	}
+	defer p.Close()
+	c := &c04Case{Transport: "memb", Buffer: 1, Direction: "c2s", DelayUS: 150, Impatient: true}
+	var mu sync.Mutex
+	badWrite := false
+	p.MemC.OnWrite = func(b []byte) {
+		if bytes.Count(b, []byte("\n")) > 1 {
+			mu.Lock()
+			badWrite = true
+			mu.Unlock()
+		}
+	}
+	const patient, impatient = 2, 4
+	n := patient + impatient
+	plan := make([][]c04Item, n)
+	for t := 0; t < n; t++ {
+		for i := 0; i < 6+int(seed+int64(t))%5; i++ {
+			size := 20
+			if t < patient {
+				size = 9000 + 3000*((int(seed)+t+i)%4)
+			}
+			plan[t] = append(plan[t], c04Item{Kind: (t + i) % 4, Size: size})
+		}
+	}
+	var delivered [4][][2]int
+	stop := make(chan struct{})
+	go consume(p.Server, plan, 150*time.Microsecond, &delivered, &mu, stop)
+	okSent := make([][]int, n) // per sender: attempt numbers whose send reported success
+	attempts := make([]int, n)
+	var wg sync.WaitGroup
+	for t := 0; t < n; t++ {
+		t := t
+		wg.Add(1)
+		go func() {
+			defer wg.Done()
+			for seq, it := range plan[t] {
+				d := 20 * time.Second
+				if t >= patient {
+					d = time.Duration(200+300*((int(seed)+t+seq)%7)) * time.Microsecond
+					time.Sleep(time.Duration(100*((t+seq)%5)) * time.Microsecond)
+				}
+				ctx, cancel := context.WithTimeout(context.Background(), d)
+				err := sendAny(ctx, p.Client, c04Envelope(t, seq, it))
+				cancel()
+				mu.Lock()
+				attempts[t]++
+				if err == nil {
+					okSent[t] = append(okSent[t], seq)
+				}
+				mu.Unlock()
+				if err != nil && t < patient {
+					return
+				}
+			}
+		}()
+	}
+	wg.Wait()
+	total := 0
+	for t := range okSent {
+		total += len(okSent[t])
+	}
+	count := func() int {
+		mu.Lock()
+		defer mu.Unlock()
+		k := 0
+		for kind := 0; kind < 4; kind++ {
+			for _, d := range delivered[kind] {
+				for _, s := range okSent[d[0]%n] {
+					if d[0] < n && s == d[1] {
+						k++
+					}
+				}
+			}
+		}
+		return k
+	}
+	if !waitUntil(5*time.Second, func() bool { return count() >= total }) {
+		c.Note = "not everything that was reported sent was delivered in time"
+	}
+	time.Sleep(3 * time.Millisecond)
+	close(stop)
+	mu.Lock()
+	defer mu.Unlock()
+	// renumber: the case talks about the envelopes that were reported sent
+	c.Work = make([][]c04Item, n)
+	index := make([]map[int]int, n)
+	for t := 0; t < n; t++ {
+		index[t] = map[int]int{}
+		for i, seq := range okSent[t] {
+			index[t][seq] = i
+			c.Work[t] = append(c.Work[t], plan[t][seq])
+		}
+	}
+	for kind := 0; kind < 4; kind++ {
+		for _, d := range delivered[kind] {
+			if d[0] < n {
+				if i, ok := index[d[0]][d[1]]; ok {
+					c.Delivered[kind] = append(c.Delivered[kind], [2]int{d[0], i})
+					continue
+				}
+				if d[1] != 999999 && d[1] < len(plan[d[0]]) {
+					continue // delivered although its send reported an error: allowed
+				}
+			}
+			c.Delivered[kind] = append(c.Delivered[kind], [2]int{d[0], 999999})
+		}
+	}
+	c.Overlap = p.MemC.Overlap || badWrite
+	c.Attempts = attempts
+	return c, nil
+}
+
 func runC04(env *Env) error {
 	env.Header = "From Coq Require Import List.\nImport ListNotations.\nFrom Lime Require Import Base.Res Chan.Pipeline Corr.C04."
 	env.ShardSize = 40
-	env.Rule = "real established pairs over in-process, TCP over an injected connection (Write calls monitored for overlap and for carrying exactly one envelope), TCP and TCP+TLS over loopback, WebSocket and secure WebSocket; PRNG workloads (4 kinds, payloads 0 B to 40 kB (quick) / 200 kB (thorough)), both directions at once, 1-8 sender goroutines per side, channel/transport buffers 0, 1, 2, 64, consumer delays 0-300 us. Non-trivial: at least two senders or a buffer of at most one slot. Distinct by (transport, buffer, workload)."
+	env.Rule = "real established pairs over in-process, TCP over an injected connection (Write calls monitored for overlap and for carrying exactly one envelope), TCP and TCP+TLS over loopback, WebSocket and secure WebSocket; PRNG workloads (4 kinds, payloads 0 B to 40 kB (quick) / 200 kB (thorough)), both directions at once, 1-8 sender goroutines per side, channel/transport buffers 0, 1, 2, 64, consumer delays 0-300 us; plus runs over a connection with 8 kB buffers and a slow reader where, next to two patient senders of large envelopes, four senders use contexts that expire after 0.2-2 ms (while waiting for their turn or while writing): exactly the envelopes whose send reported success must arrive, and writes must never overlap. Non-trivial: at least two senders or a buffer of at most one slot. Distinct by (transport, buffer, workload)."
 	rng := env.Rng
 	var rc c04Case
 	if ok, err := env.ReplayDesc(&rc); err != nil {
 		return err
+	} else if ok && rc.Impatient {
+		for i := int64(0); i < 20; i++ {
+			c, err := runC04Impatient(i)
+			if err != nil {
+				return err
+			}
+			env.Add(c.Coq(), c)
+		}
+		return nil
 	} else if ok {
 		cs, err := runC04Pair(rc.Transport, rc.Buffer, rc.DelayUS, rc.Work, rc.Work)
 		if err != nil {
@@ -240,6 +374,23 @@ func runC04(env *Env) error {
 			}
 		}
 		return w
+	}
+	for i := 0; i < env.Pick(20, 200); i++ {
+		c, err := runC04Impatient(int64(i))
+		if err != nil {
+			return fmt.Errorf("impatient: %w", err)
+		}
+		env.Add(c.Coq(), c)
+		env.Count("impatient-senders")
+		ok := 0
+		for _, w := range c.Work {
+			ok += len(w)
+		}
+		env.Count(fmt.Sprintf("impatient:reported-sent=%d", ok/10*10))
+		if c.Note != "" {
+			env.Count("note=" + strings.TrimSpace(c.Note))
+		}
+		env.NonTrivial(c.Coq())
 	}
 	runs := env.Pick(26, 160)
 	for i := 0; i < runs; i++ {
